@@ -266,6 +266,10 @@ def metadata_rules(ctx, rep, R):
     okl = len(st) == 1 and all(not C.can_reach(SM, st[0], o) for o in others)
     rep.check(R, "set_metadata/times-last", okl, where=SM.loc(), what="set_times is the last metadata operation (later chmod/chown/xattr calls cannot disturb the restored times)" if okl else
               "another metadata operation can run after set_times")
+    perm = calls.get("set_permission", [])
+    okpo = len(perm) == 1 and all(not C.can_reach(SM, perm[0], o) for o in own)
+    rep.check(R, "set_metadata/permission-after-ownership", okpo, where=SM.loc(), what="the mode is set after ownership (chown clears setuid/setgid bits, so chmod must come last of the two)" if okpo else
+              "an ownership change can run after set_permission: chown clears the setuid/setgid bits that were just restored")
     RM_ = prog.find1(r"^rustic_core::commands::restore::restore_metadata$")
     sm_calls = [bb for bb, t in RM_.calls() if "callee" in t and callee(t).endswith("commands::restore::set_metadata")]
     pushes = [bb for bb, t in RM_.calls() if "callee" in t and callee(t).endswith("Vec::<T, A>::push")]
